@@ -69,6 +69,8 @@ pub fn all_spellings(m: &Mv, succ: &Pos, legal: &[(Mv, Pos)]) -> Vec<String> {
     for c in core {
         if mate {
             out.push(format!("{}#", c));
+            // game records often mark a mating move with '+' (it is a check as well)
+            out.push(format!("{}+", c));
         } else if check {
             out.push(format!("{}+", c));
         }
